@@ -854,6 +854,27 @@ func templateOutsProg(plan *Tape) *Prog {
 			}
 		}
 	}
+	if plan.Draw(12) == 0 {
+		// an explicit output name equal to the name a LATER output gets by default:
+		// two outputs cannot share a place under outs/ - the compiler has to refuse
+		// the program (the case is void then), or both must be delivered
+		var fk []int
+		for i, f := range top.Outs {
+			if p.fileKind(f.T) != 0 {
+				fk = append(fk, i)
+			}
+		}
+		if len(fk) >= 2 {
+			a := plan.Draw(len(fk) - 1)
+			b := a + 1 + plan.Draw(len(fk)-1-a)
+			fa, fb := top.Outs[fk[a]], top.Outs[fk[b]]
+			if _, explicit := p.OutNames["TOPO."+fb.Name]; !explicit {
+				p.OutNames["TOPO."+fa.Name] = p.outFilename("TOPO", fb.Name, fb.T)
+				p.Helps["TOPO."+fa.Name] = "takes the later one's place"
+				p.NameClash = true
+			}
+		}
+	}
 	// the same value returned under a second name
 	if plan.Draw(5) == 0 {
 		cd := cands[plan.Draw(len(cands))]
